@@ -23,6 +23,9 @@ def specs(tier):
          gridlab.tokamak_spec("lsn", options={"finecontour_Nfine": 22, "finecontour_extend_prefactor": 1.5, "ny_inner_divertor": 8, "ny_outer_divertor": 10}, extract=ex)]
     # poloidal cells smaller than the FineContour spacing (ny = 64 half-cells of 1/128 of the circumference against 100 fine points)
     S.append(gridlab.circular_spec(options={"number_of_processors": 1, "ny": 64, "nx": 2, "R0": 1.0}, extract=ex))
+    # geometry() called twice on the same mesh (every "write grid" of the GUI does): same arrays as after one call (compared in run())
+    S.append(gridlab.tokamak_spec("lsn", extract=ex, geometry_twice=True))
+    S.append(gridlab.circular_spec(options={"poloidal_spacing_method": "linear", "finecontour_Nfine": 200}, extract=ex, geometry_twice=True))
     # a grid on which no two options that could be confused coincide (see gridlab.odd_spec)
     S.append(gridlab.odd_spec("lsn", True, extract=ex))
     if tier == "thorough":
@@ -233,7 +236,24 @@ def run(res, tier):
                 "from the in-process contour distance lists. distinct by (grid, region/chain, radial index)")
     res.trusted += ["FineContour.getDistance's two-nearest-point interpolation and the contour distances themselves are inputs of the model (extracted in-process)"]
     lines, pend = [], []
-    for g in gridlab.get(specs(tier)):
+    built = gridlab.get(specs(tier))
+    # geometry() twice == geometry() once
+    twice = [g for g in built if g["spec"].get("geometry_twice") and not g["error"]]
+    for g2 in twice:
+        ref = next((g for g in built if not g["error"] and not g["spec"].get("geometry_twice")
+                    and {k: v for k, v in g["spec"].items() if k != "geometry_twice"} == {k: v for k, v in g2["spec"].items() if k != "geometry_twice"}), None)
+        if ref is None:
+            continue
+        res.case(key=("geometry-twice", gname(g2)), nontrivial=True, sample={"op": "geometry() twice", "grid": gname(g2)})
+        diff = [k for k, a in ref["vars"].items() if getattr(a, "dtype", None) is not None and a.dtype.kind == "f" and k in g2["vars"]
+                and not np.array_equal(a, g2["vars"][k], equal_nan=True)]
+        if diff:
+            k0 = next((k for k in diff if "poloidal_distance" in k or k.startswith("hy")), diff[0])
+            res.violation("geometry-twice-differs", "%s: after a second call of geometry() on the same mesh the written %s differ from those after one call (%s by %.3g)"
+                          % (gname(g2), diff[:6], k0, float(np.nanmax(np.abs(np.nan_to_num(ref["vars"][k0]) - np.nan_to_num(g2["vars"][k0]))))), {"spec": g2["spec"]})
+        else:
+            res.traces += 1
+    for g in built:
         name = gname(g)
         if g["error"]:
             res.case(key=("grid-refused", name, g["error"][0]), nontrivial=False)
